@@ -3,6 +3,7 @@ package props
 import (
 	"encoding/json"
 	"fmt"
+	"github.com/ipfs/go-graphsync/dedupkey"
 
 	"github.com/ipfs/go-cid"
 	"github.com/ipfs/go-graphsync"
@@ -21,9 +22,10 @@ import (
 type c24Case struct {
 	Shape harness.Shape `json:"shape"`
 	Sel   string        `json:"selector"`
-	Local []int         `json:"requestor_has"` // block indexes in the requestor's store
-	UserK int64         `json:"user_skip"`     // user-supplied do-not-send-first-blocks (0: none)
-	UserS []int         `json:"user_ignore"`   // user-supplied do-not-send-cids (block indexes)
+	Local []int         `json:"requestor_has"`       // block indexes in the requestor's store
+	UserK int64         `json:"user_skip"`           // user-supplied do-not-send-first-blocks (0: none)
+	UserS []int         `json:"user_ignore"`         // user-supplied do-not-send-cids (block indexes)
+	Key   bool          `json:"dedup_key,omitempty"` // the request also carries a dedup-by-key extension (as a requestor using a persistence option sends)
 }
 
 func c24Run(cs c24Case) (sig, what, class string) {
@@ -49,6 +51,10 @@ func c24Run(cs c24Case) (sig, what, class string) {
 		}
 		exts = append(exts, graphsync.ExtensionData{Name: graphsync.ExtensionDoNotSendCIDs, Data: cidset.EncodeCidSet(set)})
 	}
+	if cs.Key {
+		kn, _ := dedupkey.EncodeDedupKey("c24")
+		exts = append(exts, graphsync.ExtensionData{Name: graphsync.ExtensionDeDupByKey, Data: kn})
+	}
 	qs, rs := d.Stores(split)
 	ref := harness.Reference(d.Root, sel.Node, harness.RefOpts{Local: qs, Remote: rs, RemoteNeedsPath: true})
 	klocal := 0
@@ -58,7 +64,7 @@ func c24Run(cs c24Case) (sig, what, class string) {
 	complete := klocal == len(ref.Loads)
 	obs, _ := runExchange(vsched.Config{Fast: true}, d, sel, split, nil, nil, exts...)
 	class = fmt.Sprintf("complete=%v localPrefix=%d userK=%d userS=%d", complete, min(klocal, 3), cs.UserK, len(cs.UserS))
-	detail := fmt.Sprintf("shape %s selector %s requestor has %v userSkip=%d userIgnore=%v", cs.Shape, cs.Sel, cs.Local, cs.UserK, cs.UserS)
+	detail := fmt.Sprintf("shape %s selector %s requestor has %v userSkip=%d userIgnore=%v dedupKey=%v", cs.Shape, cs.Sel, cs.Local, cs.UserK, cs.UserS, cs.Key)
 	if obs.Panic != "" {
 		return "panic", obs.Panic, class
 	}
@@ -171,6 +177,10 @@ func runC24(c *core.Ctx) {
 				if n >= 2 {
 					variants = append(variants, c24Case{Shape: sh, Sel: sn, Local: local, UserS: []int{0, n - 1}, UserK: 1})
 				}
+				for _, v := range variants[1:] {
+					v.Key = true
+					variants = append(variants, v)
+				}
 				for _, cs := range variants {
 					idx++
 					if !c.Mine(idx) {
@@ -197,7 +207,7 @@ func runC24(c *core.Ctx) {
 
 func init() {
 	core.Register(&core.Prop{ID: "C24", Level: "exploration",
-		Rule:        "shape catalogue x selectors x every subset of blocks in the requestor's store (responder holds everything) x user-supplied {none, do-not-send-first-blocks k=1..N, do-not-send-cids {i}, both}; one real two-node exchange each with a wire monitor; a class is a distinct (local-complete, local prefix length, user k, |user S|) combination",
+		Rule:        "shape catalogue x selectors x every subset of blocks in the requestor's store (responder holds everything) x user-supplied {none, do-not-send-first-blocks k=1..N, do-not-send-cids {i}, both} (each of the latter with and without a dedup-by-key extension); one real two-node exchange each with a wire monitor; a class is a distinct (local-complete, local prefix length, user k, |user S|) combination",
 		Assumptions: []string{"reference traversal gives the number of blocks loaded locally before the first miss and the responder's traversal positions", "default schedule"},
 		Run:         runC24, QuickBudget: 300, ThoroughBudget: 2400,
 		Replay: func(raw json.RawMessage) string {
